@@ -1486,6 +1486,9 @@ def _skipping(ctx, fn, confirmed):
     return case
 
 
+FUZZ = {'graph': (GRAPH, case_graph), 'tofile': (TOFILE, case_tofile)}
+
+
 def run(ctx):
     import emg3d
     ctx.regression(SUBS)
@@ -1501,3 +1504,5 @@ def run(ctx):
                 ctx.n(700, 2500), max_rounds=30, shrink=shrink)
     ctx.explore('tofile', TOFILE, _skipping(ctx, case_tofile, confirmed),
                 ctx.n(300, 1000), max_rounds=30, shrink=shrink)
+    # coverage-guided campaign over the same strategy / oracle
+    ctx.fuzz('graph', ctx.n(250, 4000), max_len=8192)
